@@ -62,6 +62,19 @@ Proof. vm_compute. reflexivity. Qed.
 Example C01_example_inv : rq_inv connp_new /\ rs_S connp_new.
 Proof. split; [exact rq_inv_new|exact rs_S_new]. Qed.
 
+(* ---- every call returns (request direction): the for(;;) of htp_connp_req_data is run by the model on explicit fuel 16*len+16;
+        the out-of-fuel branch is never taken and more fuel never changes the result, for every chunk, configuration and callback
+        behaviour. The measure is 16 * (bytes left) + rank(state); every pass that goes round again decreases it. ---- *)
+Require Import Htp.Proof.PTermReq.
+Theorem C01_req_pass_decreases : req_pass_decreases_full.
+Proof. exact req_pass_decreases. Qed.
+Print Assumptions C01_req_pass_decreases.
+Theorem C01_req_call_returns : forall cb g data len c k,
+  rq_inv c -> (forall d, data = Some d -> (len <= length d)%nat) -> (c_in_status c = c_HTP_STREAM_CLOSED -> len = 0%nat) ->
+  connp_req_data_fuel cb g (rq_fuel len + k) data len c = connp_req_data cb g data len c.
+Proof. exact req_data_fuel_sufficient. Qed.
+Print Assumptions C01_req_call_returns.
+
 (* ---- ownership: create / open / destroy returns the heap it started from, under every allocation-failure schedule,
         with no double free, use after free or NULL dereference on the way (the weakest precondition excludes faults) ---- *)
 Require Import Htp.Model.MOwn Htp.Proof.POwn.
